@@ -8,3 +8,4 @@ open Model.SlicesGen
 #print axioms difference_eq
 #print axioms updateClock_eq
 #print axioms addNextEntry_eq
+#print axioms admission_eq
